@@ -1245,15 +1245,18 @@ void readin (void)
 	 */
 	backend_by_name(ctrl.emit);
 
-	/* The alternate back ends omit the Bison bridge and header
-	 * generation: the bridge would leave yylval undeclared and the
-	 * "header" would be a second copy of the scanner.
+	/* The alternate back ends omit the Bison bridge, header generation
+	 * and loadable tables: the bridge would leave yylval undeclared,
+	 * the "header" would be a second copy of the scanner and the
+	 * scanner would have no code to load or verify the tables file.
 	 */
 	if (!is_default_backend()) {
 		if (ctrl.bison_bridge_lval || ctrl.bison_bridge_lloc)
 			flexerror (_("the bison bridge is supported by the default back end only"));
 		if (env.headerfilename != NULL)
 			flexerror (_("header generation is supported by the default back end only"));
+		if (tablesext)
+			flexerror (_("loadable tables are supported by the default back end only"));
 	}
 
 	initialize_output_filters();
